@@ -8,4 +8,7 @@ namespace Solstat
 `get_vulnerability_report_section` and `get_qa_report_section` attach to every pattern the text written for it -/
 theorem signatures_as_reviewed : generatedSignatures = reviewedSignatures := by decide +kernel
 
+/-- every configuration name selects the pattern it names (regenerated `str_to_*` tables = reviewed table) -/
+theorem names_as_reviewed : generatedNames = reviewedNames := by decide +kernel
+
 end Solstat
